@@ -70,7 +70,8 @@ func (muxer *Muxer) Close() error {
 	}
 
 	muxer.closed = true
-	muxer.recvQueue.Signal()
+	// wake up through the queue lock: a bare Signal can be lost
+	muxer.recvQueue.Push(nil)
 	return nil
 }
 
